@@ -25,7 +25,8 @@ CREATE == "CreateContainer"
 VARIABLES
   idx,      \* plugin -> index 0..99            (domain: plugins that reached registration)
   mask,     \* plugin -> set of subscribed events
-  pst,      \* plugin -> "syncwait" | "exclusive" | "synced" | "active" | "closed" | "failed"
+  pst,      \* plugin -> registration phase: "syncwait" | "exclusive" | "synced" | "active" | "failed"
+  dead,     \* plugins whose connection is closed (dropped, failed or left)
   active,   \* sequence of plugins in invocation order (the code's r.plugins)
   rlock,    \* holder of the adaptation lock, "" if free
   cur,      \* what the holder is doing: [op, id, ev, ctr, plist, pos, veto, visited]
@@ -38,21 +39,20 @@ VARIABLES
   lockseq,  \* sequence of request ids in lock-acquisition order (history)
   cin       \* plugin -> id of the request during which it was closed ("" = outside any request)
 
-rvars == <<idx, mask, pst, active, rlock, cur, swriter, readers, seen, store, snap, created, lockseq, cin>>
+rvars == <<idx, mask, pst, dead, active, rlock, cur, swriter, readers, seen, store, snap, created, lockseq, cin>>
 
 NoCur == [op |-> "", id |-> "", ev |-> "", ctr |-> "", plist |-> <<>>, pos |-> 0, veto |-> FALSE, visited |-> <<>>]
 
 RInit ==
-  /\ idx = [p \in {} |-> 0] /\ mask = [p \in {} |-> {}] /\ pst = [p \in {} |-> ""]
+  /\ idx = [p \in {} |-> 0] /\ mask = [p \in {} |-> {}] /\ pst = [p \in {} |-> ""] /\ dead = {}
   /\ active = <<>> /\ rlock = "" /\ cur = NoCur /\ swriter = "" /\ readers = {}
   /\ seen = [p \in {} |-> <<>>] /\ store = {} /\ snap = [p \in {} |-> {}]
   /\ created = [p \in {} |-> {}] /\ lockseq = <<>> /\ cin = [p \in {} |-> ""]
 
 Ext(f, p, v) == [x \in DOMAIN f \cup {p} |-> IF x = p THEN v ELSE f[x]]
 Known(p) == p \in DOMAIN pst
-Live(p) == Known(p) /\ pst[p] \notin {"closed", "failed"}
 SeqSet(s) == {s[i] : i \in DOMAIN s}
-Prune(s) == SelectSeq(s, LAMBDA p : pst[p] # "closed")
+Prune(s) == SelectSeq(s, LAMBDA p : p \notin dead)
 
 \* ------------------------------------------------------------ registration --
 (* A plugin that connected, registered a well-formed identity and answered  *)
@@ -61,55 +61,61 @@ WantSync(p, i, m) ==
   /\ ~Known(p)
   /\ idx' = Ext(idx, p, i) /\ mask' = Ext(mask, p, m) /\ pst' = Ext(pst, p, "syncwait")
   /\ seen' = Ext(seen, p, <<>>) /\ snap' = Ext(snap, p, {}) /\ created' = Ext(created, p, {})
-  /\ UNCHANGED <<active, rlock, cur, swriter, readers, store, lockseq, cin>>
+  /\ UNCHANGED <<dead, active, rlock, cur, swriter, readers, store, lockseq, cin>>
 
 \* the exclusive lock is granted only when no sync block is held
 GotSync(p) ==
   /\ Known(p) /\ pst[p] = "syncwait"
   /\ readers = {} /\ swriter = ""
   /\ swriter' = p /\ pst' = [pst EXCEPT ![p] = "exclusive"]
-  /\ UNCHANGED <<idx, mask, active, rlock, cur, readers, seen, store, snap, created, lockseq, cin>>
+  /\ UNCHANGED <<idx, mask, dead, active, rlock, cur, readers, seen, store, snap, created, lockseq, cin>>
 
 \* the runtime hands its current state to the plugin
 Snapshot(p, S) ==
   /\ swriter = p /\ pst[p] = "exclusive"
   /\ snap' = [snap EXCEPT ![p] = S] /\ pst' = [pst EXCEPT ![p] = "synced"]
-  /\ UNCHANGED <<idx, mask, active, rlock, cur, swriter, readers, seen, store, created, lockseq, cin>>
+  /\ UNCHANGED <<idx, mask, dead, active, rlock, cur, swriter, readers, seen, store, created, lockseq, cin>>
 
 SyncFailed(p) ==
   /\ swriter = p /\ pst[p] \in {"exclusive", "synced"}
   /\ pst' = [pst EXCEPT ![p] = "failed"]
-  /\ UNCHANGED <<idx, mask, active, rlock, cur, swriter, readers, seen, store, snap, created, lockseq, cin>>
+  /\ UNCHANGED <<idx, mask, dead, active, rlock, cur, swriter, readers, seen, store, snap, created, lockseq, cin>>
 
-\* order is a sorted arrangement of the live active plugins plus p
+(* order is a sorted arrangement of the active plugins plus p; plugins whose *)
+(* connection is closed may or may not have been pruned already (when the  *)
+(* pruning happens is not part of any property).                           *)
 SortedSeq(s) == \A i, j \in DOMAIN s : i < j => idx[s[i]] <= idx[s[j]]
-IsArrangement(s, S) == SeqSet(s) = S /\ Len(s) = Cardinality(S)
+NoDup(s) == \A i, j \in DOMAIN s : i # j => s[i] # s[j]
+ActiveSetOK(order, p) ==
+  /\ NoDup(order)
+  /\ (SeqSet(Prune(active)) \cup ({p} \ dead)) \subseteq SeqSet(order)
+  /\ SeqSet(order) \subseteq (SeqSet(active) \cup {p})
 Activate(p, order) ==
   /\ swriter = p /\ pst[p] = "synced" /\ rlock = p
-  /\ IsArrangement(order, SeqSet(Prune(active)) \cup {p})
+  /\ ActiveSetOK(order, p)
   /\ SortedSeq(order)
   /\ active' = order /\ pst' = [pst EXCEPT ![p] = "active"]
-  /\ UNCHANGED <<idx, mask, rlock, cur, swriter, readers, seen, store, snap, created, lockseq, cin>>
+  /\ UNCHANGED <<idx, mask, dead, rlock, cur, swriter, readers, seen, store, snap, created, lockseq, cin>>
 
 FinishSync(p) ==
   /\ swriter = p /\ rlock # p
   /\ swriter' = ""
-  /\ UNCHANGED <<idx, mask, pst, active, rlock, cur, readers, seen, store, snap, created, lockseq, cin>>
+  /\ UNCHANGED <<idx, mask, pst, dead, active, rlock, cur, readers, seen, store, snap, created, lockseq, cin>>
 
 \* ------------------------------------------------------------- sync blocks --
 Block(t) ==
   /\ t \notin readers /\ swriter = ""
   /\ readers' = readers \cup {t}
-  /\ UNCHANGED <<idx, mask, pst, active, rlock, cur, swriter, seen, store, snap, created, lockseq, cin>>
+  /\ UNCHANGED <<idx, mask, pst, dead, active, rlock, cur, swriter, seen, store, snap, created, lockseq, cin>>
 
 Unblock(t) ==
   /\ t \in readers
   /\ readers' = readers \ {t}
-  /\ UNCHANGED <<idx, mask, pst, active, rlock, cur, swriter, seen, store, snap, created, lockseq, cin>>
+  /\ UNCHANGED <<idx, mask, pst, dead, active, rlock, cur, swriter, seen, store, snap, created, lockseq, cin>>
 
 StoreAdd(x) ==
   /\ store' = store \cup {x}
-  /\ UNCHANGED <<idx, mask, pst, active, rlock, cur, swriter, readers, seen, snap, created, lockseq, cin>>
+  /\ UNCHANGED <<idx, mask, pst, dead, active, rlock, cur, swriter, readers, seen, snap, created, lockseq, cin>>
 
 \* -------------------------------------------------------- the adaptation lock --
 \* op: "request" (lifecycle request/event), "update" (unsolicited update), "register"
@@ -119,10 +125,10 @@ Lock(h, op, id, ev, ctr) ==
   /\ cur' = [op |-> op, id |-> id, ev |-> ev, ctr |-> ctr, plist |-> active, pos |-> 0,
              veto |-> FALSE, visited |-> <<>>]
   /\ lockseq' = IF op = "request" THEN Append(lockseq, id) ELSE lockseq
-  /\ UNCHANGED <<idx, mask, pst, active, swriter, readers, seen, store, snap, created, cin>>
+  /\ UNCHANGED <<idx, mask, pst, dead, active, swriter, readers, seen, store, snap, created, cin>>
 
 \* plugins between the cursor and position j that must not be passed over
-MustVisit(k) == cur.ev \in mask[cur.plist[k]] /\ pst[cur.plist[k]] # "closed"
+MustVisit(k) == cur.ev \in mask[cur.plist[k]] /\ cur.plist[k] \notin dead
 NextTarget(j) ==
   /\ j \in (cur.pos + 1)..Len(cur.plist)
   /\ \A k \in (cur.pos + 1)..(j - 1) : ~MustVisit(k)
@@ -134,17 +140,17 @@ Deliver(p) ==
   /\ \E j \in DOMAIN cur.plist :
         /\ cur.plist[j] = p /\ NextTarget(j)
         /\ cur.ev \in mask[p]
-        /\ pst[p] = "closed" => cin[p] = cur.id     \* a dropped plugin gets no further requests
+        /\ p \in dead => cin[p] = cur.id     \* a dropped plugin gets no further requests
         /\ cur' = [cur EXCEPT !.pos = j, !.visited = Append(@, p)]
   /\ seen' = [seen EXCEPT ![p] = Append(@, cur.id)]
   /\ created' = IF cur.ev = CREATE THEN [created EXCEPT ![p] = @ \cup {cur.ctr}] ELSE created
-  /\ UNCHANGED <<idx, mask, pst, active, rlock, swriter, readers, store, snap, lockseq, cin>>
+  /\ UNCHANGED <<idx, mask, pst, dead, active, rlock, swriter, readers, store, snap, lockseq, cin>>
 
 \* the handler of the plugin visited last failed the request deliberately
 Veto ==
   /\ rlock # "" /\ cur.op = "request" /\ ~cur.veto /\ Len(cur.visited) > 0
   /\ cur' = [cur EXCEPT !.veto = TRUE]
-  /\ UNCHANGED <<idx, mask, pst, active, rlock, swriter, readers, seen, store, snap, created, lockseq, cin>>
+  /\ UNCHANGED <<idx, mask, pst, dead, active, rlock, swriter, readers, seen, store, snap, created, lockseq, cin>>
 
 RelayDone == cur.veto \/ \A k \in (cur.pos + 1)..Len(cur.plist) : ~MustVisit(k)
 
@@ -153,19 +159,18 @@ Unlock(h) ==
   /\ cur.op = "request" => RelayDone
   /\ rlock' = "" /\ cur' = NoCur
   /\ active' = IF cur.op = "request" THEN Prune(active) ELSE active
-  /\ UNCHANGED <<idx, mask, pst, swriter, readers, seen, store, snap, created, lockseq, cin>>
+  /\ UNCHANGED <<idx, mask, pst, dead, swriter, readers, seen, store, snap, created, lockseq, cin>>
 
 \* a plugin's connection is lost / it is dropped: any time
 PluginClosed(p) ==
-  /\ Known(p) /\ pst[p] # "closed"
-  /\ pst' = [pst EXCEPT ![p] = "closed"]
+  /\ p \notin dead
+  /\ dead' = dead \cup {p}
   /\ cin' = Ext(cin, p, IF rlock # "" /\ cur.op = "request" THEN cur.id ELSE "")
-  /\ UNCHANGED <<idx, mask, active, rlock, cur, swriter, readers, seen, store, snap, created, lockseq>>
+  /\ UNCHANGED <<idx, mask, pst, active, rlock, cur, swriter, readers, seen, store, snap, created, lockseq>>
 
 \* -------------------------------------------------------------- invariants --
 Sorted == SortedSeq(active)
 
-NoDup(s) == \A i, j \in DOMAIN s : i # j => s[i] # s[j]
 OncePerRequest == \A p \in DOMAIN seen : NoDup(seen[p])
 
 \* every plugin sees a subsequence of the one lock order
@@ -182,12 +187,12 @@ ActiveNoDup == NoDup(active)
 \* C08: either in the snapshot or relayed, never both, never neither
 ExactlyOnce ==
   \A p \in DOMAIN pst :
-     (pst[p] = "active" /\ CREATE \in mask[p]) =>
+     (pst[p] = "active" /\ p \notin dead /\ CREATE \in mask[p]) =>
         \A x \in store : (x \in snap[p]) # (x \in created[p])
 
 HeldBlocksSync == ~(readers # {} /\ swriter # "")
 
 \* nobody becomes active without having been synchronized exclusively
-ActiveWasSynced == \A i \in DOMAIN active : pst[active[i]] \in {"active", "closed"}
+ActiveWasSynced == \A i \in DOMAIN active : pst[active[i]] = "active"
 
 =============================================================================
